@@ -454,6 +454,11 @@ func R8(pkgs ...string) func(p *core.Prog) *core.Result {
 		r.Floor("entry_points", entries, 5*len(pkgs))
 		doneMeansValue(p, r, pkgs)
 		topLevelDone(p, r, pkgs)
+		for _, pk := range pkgs {
+			if pk == "ubjson" {
+				finalizerSteps(p, r)
+			}
+		}
 		return r
 	}
 }
@@ -774,7 +779,7 @@ func doneMeansValue(p *core.Prog, r *core.Result, pkgs []string) {
 			}
 		}
 	}
-	r.Floor("steps_with_completion_flag", n, 20)
+	r.Floor("steps_with_completion_flag", n, 6*len(pkgs))
 }
 
 // ---- TOP-LEVEL-DONE ----
@@ -876,3 +881,156 @@ func topLevelDone(p *core.Prog, r *core.Result, pkgs []string) {
 		}
 	}
 }
+
+// ---- FINALIZER-STEPS (ubjson) ----
+//
+// A container handler that, in some step of its own, emits an event before it
+// reads any input (the header is complete and the container still has to be
+// announced; the count is exhausted and the container has to be closed) can be
+// left in exactly that step when the input ends: the dispatcher stops as soon
+// as the chunk is empty. The end-of-input check has to know every such step -
+// it compares the open state's step with that constant somewhere - or a
+// complete document whose last bytes are such a header is rejected as
+// truncated.
+
+type fsState struct {
+	step int64 // 1 + known step constant, 0 unknown
+	read bool
+}
+type fsClient struct {
+	chunk ssa.Value
+	steps map[int64]bool
+	fn    *ssa.Function
+}
+
+func (k *fsClient) Key(s fsState) string                              { return fmt.Sprintf("%d|%v", s.step, s.read) }
+func (k *fsClient) Phis(s fsState, _ *ssa.BasicBlock, _ int) fsState { return s }
+func (k *fsClient) Return(fsState, *ssa.Return)                      {}
+func isStepValue(v ssa.Value) bool {
+	n, ok := v.Type().(*types.Named)
+	return ok && n.Obj().Name() == "stateStep"
+}
+func (k *fsClient) Branch(s fsState, cond ssa.Value, outcome bool) (fsState, bool) {
+	if bo, ok := cond.(*ssa.BinOp); ok && (bo.Op == token.EQL || bo.Op == token.NEQ) && isStepValue(bo.X) {
+		if c, ok := constIntVal(bo.Y); ok {
+			if outcome == (bo.Op == token.EQL) {
+				if s.step != 0 && s.step != c+1 {
+					return s, false
+				}
+				s.step = c + 1
+			} else if s.step == c+1 {
+				return s, false
+			}
+		}
+	}
+	return s, true
+}
+func (k *fsClient) Instr(s fsState, in ssa.Instruction) (fsState, bool, []fsState) {
+	if s.read {
+		return s, false, nil
+	}
+	switch x := in.(type) {
+	case *ssa.IndexAddr:
+		if x.X == k.chunk {
+			s.read = true
+		}
+	case *ssa.Slice:
+		if x.X == k.chunk {
+			s.read = true
+		}
+	case *ssa.Call:
+		for _, a := range x.Common().Args {
+			if a == k.chunk {
+				s.read = true
+			}
+		}
+		cc := x.Common()
+		if !s.read && cc.IsInvoke() && cc.Method.Pkg() != nil && cc.Method.Pkg().Path() == core.ModPath && strings.HasPrefix(cc.Method.Name(), "On") {
+			if s.step != 0 {
+				k.steps[s.step-1] = true
+			}
+			return s, false, nil
+		}
+	}
+	return s, true, nil
+}
+
+func finalizerSteps(p *core.Prog, r *core.Result) {
+	fam, err := buildFamily(p, "ubjson")
+	if err != nil {
+		return
+	}
+	fin := p.LookupFunc("ubjson", "(*Parser).finalize")
+	if fin == nil {
+		return
+	}
+	// step constants the end-of-input check knows
+	known := map[int64]bool{}
+	seen := map[*ssa.Function]bool{}
+	var visit func(f *ssa.Function)
+	visit = func(f *ssa.Function) {
+		if seen[f] || f.Blocks == nil || core.FuncPkg(f) != core.FuncPkg(fin) {
+			return
+		}
+		seen[f] = true
+		for _, b := range f.Blocks {
+			for _, in := range b.Instrs {
+				if bo, ok := in.(*ssa.BinOp); ok && (bo.Op == token.EQL || bo.Op == token.NEQ) && isStepValue(bo.X) {
+					if c, ok := constIntVal(bo.Y); ok {
+						known[c] = true
+					}
+				}
+				if c, ok := in.(ssa.CallInstruction); ok {
+					if sc := c.Common().StaticCallee(); sc != nil && !fam.steps[sc].isStep() {
+						visit(sc)
+					}
+				}
+			}
+		}
+	}
+	visit(fin)
+	stepName := map[int64]string{}
+	for name, m := range p.SPkgs["ubjson"].Members {
+		if nc, ok := m.(*ssa.NamedConst); ok {
+			if n, ok := nc.Type().(*types.Named); ok && n.Obj().Name() == "stateStep" {
+				if v, ok := constIntVal(nc.Value); ok {
+					stepName[v] = name
+				}
+			}
+		}
+	}
+	n := 0
+	for _, hn := range []string{"stepArrayCount", "stepArrayTyped", "stepObjectCountedContent"} {
+		h := p.LookupFunc("ubjson", "(*Parser)."+hn)
+		if h == nil {
+			r.Undecided(".FINALIZER-STEPS", "ubjson."+hn, "container handler not found")
+			continue
+		}
+		sf := fam.steps[h]
+		if sf == nil {
+			continue
+		}
+		k := &fsClient{chunk: sf.chunk, steps: map[int64]bool{}, fn: h}
+		WalkPaths[fsState](k, h.Blocks[0], 0, fsState{}, 200000, nil)
+		var ss []int64
+		for s := range k.steps {
+			ss = append(ss, s)
+		}
+		sort.Slice(ss, func(i, j int) bool { return ss[i] < ss[j] })
+		for _, s := range ss {
+			n++
+			name := stepName[s]
+			if name == "" {
+				name = fmt.Sprint(s)
+			}
+			if known[s] {
+				r.Ok(".FINALIZER-STEPS", p.Pos(h.Pos()), fmt.Sprintf("ubjson %s emits an event without input in step %s, and the end-of-input check knows that step", hn, name))
+			} else {
+				r.Fail(".FINALIZER-STEPS", fmt.Sprintf("ubjson.%s|%s", hn, name), p.Pos(h.Pos()), fmt.Sprintf("ubjson %s emits an event before reading any input when the open container is in step %s, so the input can end with the machine in that step (the dispatcher stops on an empty chunk); the end-of-input check never compares the step with %s: a complete document that ends with such a header (an empty counted container) is rejected as truncated", hn, name, name), "")
+			}
+		}
+	}
+	r.Floor("zero_input_steps", n, 2)
+}
+
+func (sf *stepFn) isStep() bool { return sf != nil }
